@@ -187,7 +187,7 @@ impl Prop for C13 {
         48
     }
     fn cases(&self, t: Tier) -> usize {
-        t.pick(30_000, 1_000_000)
+        t.pick(300_000, 20_000_000)
     }
     fn workers(&self, _t: Tier) -> usize {
         16
